@@ -300,7 +300,10 @@ func c03Child(dir string, seed uint64, tier string) {
 						case 1:
 							copy(ffo[len(ffo)-104:len(ffo)-100], be32(1<<20)) // data fork size
 						case 2:
+							// garbage, but with a declared info-fork size within the property's 1 MiB bound (the handler
+							// allocates what the header declares: a 32-bit size is outside the statement)
 							ffo = r.Bytes(len(ffo))
+							copy(ffo[36:40], be32(r.Intn(1<<20)))
 						}
 						x.Write(ffo[:r.Intn(len(ffo)+1)])
 					}
@@ -314,8 +317,13 @@ func c03Child(dir string, seed uint64, tier string) {
 			res.SentinelOK = false
 		}
 	}
-	// quiescence: the transfer handler sleeps 3 s before it returns
+	// quiescence: the transfer handler sleeps 3 s before it returns; under load the last handlers may need longer
 	time.Sleep(3600 * time.Millisecond)
+	for dl := time.Now().Add(20 * time.Second); time.Now().Before(dl); time.Sleep(200 * time.Millisecond) {
+		if len(env.Srv.ClientMgr.List()) == 1 && env.Srv.Stats.Get(hotline.StatDownloadsInProgress) == 0 && env.Srv.Stats.Get(hotline.StatUploadsInProgress) == 0 {
+			break
+		}
+	}
 	if !ping() {
 		res.SentinelOK = false
 	}
@@ -347,11 +355,13 @@ func c03Child(dir string, seed uint64, tier string) {
 	res.Connected = env.Srv.Stats.Get(hotline.StatCurrentlyConnected)
 	res.Downloads = env.Srv.Stats.Get(hotline.StatDownloadsInProgress)
 	res.Uploads = env.Srv.Stats.Get(hotline.StatUploadsInProgress)
-	if res.RegistryCount != 1 {
-		buf := make([]byte, 1<<20)
+	if res.RegistryCount != 1 || res.Uploads != 0 || res.Downloads != 0 {
+		buf := make([]byte, 4<<20)
 		buf = buf[:runtime.Stack(buf, true)]
+		shown := 0
 		for _, g := range strings.Split(string(buf), "\n\n") {
-			if strings.Contains(g, "handleNewConnection") {
+			if (strings.Contains(g, "handleNewConnection") || strings.Contains(g, "handleFileTransfer")) && shown < 3 {
+				shown++
 				if len(g) > 1500 {
 					g = g[:1500]
 				}
@@ -401,7 +411,7 @@ func genC03(cs *CaseSet, rng *Rng, tier string, dir string) {
 			return []byte{0}
 		}
 		lat := byte(0)
-		if res.MaxLatencyMS > 2000 {
+		if res.MaxLatencyMS > 5000 {
 			lat = 1
 		}
 		for k, v := range res.Kinds {
